@@ -1251,7 +1251,10 @@ def evalf(a):
         if isnum(x):
             e.append(float(x))
         elif is_numeric_entry(x):
-            e.append(to_float(x))
+            try:
+                e.append(to_float(x))
+            except Undecided:
+                e.append(_fold(x))        # value of an uninterpreted user function at numbers: stays symbolic
         else:
             e.append(x)
     return DM._raw(a.rows, a.cols, e)
